@@ -1,11 +1,19 @@
 """C05 -- proxied circuit: acknowledgements stay truthful under injection, drops, resends.
 
-DEEP SEAM (the only one built): a real ``ProxiedCircuit`` with a capturing transport, the real UDP deserializer on the
+DEEP SEAM (main search): a real ``ProxiedCircuit`` with a capturing transport, the real UDP deserializer on the
 way in and the real serializer on the way out, under ``hmc.vloop`` (virtual asyncio loop + virtual clock).  For every
 endpoint datagram the harness performs exactly the calls ``InterceptingLLUDPProxyProtocol.handle_proxied_packet``
 performs on the circuit:  ``deserialize -> circuit.collect_acks(msg) -> circuit.drop_message(msg) | circuit.send(msg)``;
 injections are ``circuit.send_reliable(synthetic)`` / ``circuit.send(synthetic)``; time passes only through Tick
 events, which poll ``circuit.resend_unacked()`` every 0.1 virtual seconds exactly like ``attempt_resends``.
+
+SHALLOW SEAM (conformance of the glue, smaller depth): the same events through
+``InterceptingLLUDPProxyProtocol.datagram_received`` (SOCKS-framed from the viewer, raw from the simulator) with a real
+SessionManager / Session / ProxiedRegion, an addon object that drops on request (two styles: it calls
+``circuit.drop_message`` itself, or it ``take()``s the message and lets the proxy drop the queued original), injections
+through ``region.circuit`` and the protocol's own ``attempt_resends`` task driven by the virtual loop.  The same model and
+oracle run on it, and every step must hand the transport exactly the datagrams the deep seam produces for the same
+history (clause seam-divergence).
 
 Endpoints (viewer sends direction "O"=OUT, simulator sends direction "I"=IN) are plain-Python models that behave like
 real LLUDP peers: each numbers its own packets 1,2,3..; it acknowledges only *reliable* packets it actually received
@@ -51,6 +59,10 @@ handed during the step, never on implementation state):
   reliable-wire-id-reused, retransmission-wire-id-changed, injection-output, exception): things that would make the
   ack bookkeeping itself meaningless.
 
+Not judged: the wire ID of the *unreliable* PacketAck that drop_message emits for piggy-backed acks (it reuses the
+dropped packet's untranslated ID, which after an earlier injection in that direction equals a wire ID already used;
+LLUDP receivers de-duplicate only reliable packets, so the acks still arrive -- the statement is not violated).
+
 Retry budget: N = default of ``ReliableResendInfo.tries_left`` (read, not hard-coded); interval = ``circuit.resend_every``.
 Reading of "budget" (the repo's own test_reliable_resend_cadence and the field name fix it): N transmissions in total --
 the original plus N-1 retransmissions, one per elapsed interval; when the N-th interval elapses unacknowledged the
@@ -66,7 +78,7 @@ empty history and compares canon(), which is the standing check that the clone i
 
 Deviations from DESIGN: (1) StartPingCheck.OldestUnacked rewriting is not part of the property statement and is left
 out; (2) dropping a standalone PacketAck is not in the alphabet (the statement only speaks about acks *piggy-backed* on
-a dropped packet); (3) the shallow seam (datagram_received + Session + addon) is not built; (4) Tick("exhaust") was
+a dropped packet); (3) the shallow seam is explored to depth 3 (quick) / 4 (thorough); (4) Tick("exhaust") was
 added so that the retry budget can be spent inside the depth bound; (5) retransmitted endpoint packets carry no acks;
 (6) instead of one (depth, deviation) pair the search is a staircase of pairs (see SEARCHES): the alphabet has ~11
 default and ~28 deviation events per state, depth 7 with 3 deviations is ~10^9 transitions.
@@ -86,7 +98,6 @@ from typing import Any, Dict, List, Optional, Tuple
 import hippolyzer.lib.base.message.circuit as circuit_mod
 from hippolyzer.lib.base.message.circuit import ReliableResendInfo
 from hippolyzer.lib.base.message.message import Block, Message
-from hippolyzer.lib.base.message.msgtypes import PacketFlags
 from hippolyzer.lib.base.message.udpdeserializer import UDPMessageDeserializer
 from hippolyzer.lib.base.network.transport import Direction
 from hippolyzer.lib.base.settings import Settings
